@@ -66,6 +66,7 @@ CONSTANTS ScaleKeyHasArgs,   \* the key of collinear scale_factor(lambda1, omega
           Enabled,           \* names of the operations of the alphabet in use
           Degrees,           \* degree names, e.g. {"d2", "d3"}
           CnUpTo,            \* degree name -> set of c_n order names the degree-d expansion reads
+          FlatDegrees,       \* degrees at which the generating functions are trivial
           CnOrders,          \* c_n order names offered to Cn(k)
           Forms,             \* Hamiltonian form names; "physical" does not depend on the normal-form transform
           UserOpts,          \* user option names, e.g. {"o1", "o2"}
@@ -176,11 +177,14 @@ CHam(c, d, f) == IF Has(c, HamKey(d, f)) THEN c
                       IN  Fill(c2, HamKey(d, f), <<"ham", dd, f, FormContent(f, c2)>>)
 CHs(c, d, f) == IF Has(c, HsKey(d, f)) THEN c
                 ELSE LET c1 == CHam(c, d, f) IN Fill(c1, HsKey(d, f), <<"hamsys">> \o Tail(Lookup(c1, HamKey(d, f))))
+\* the generating functions of the lowest degree are trivial (nothing to normalise at degree 2): they do not
+\* depend on the normal-form transform
+GfContent(dd, c) == IF dd \in FlatDegrees THEN "-" ELSE NftContent(c)
 CGf(c, d) == IF Has(c, GfKey(d)) THEN c
              ELSE LET c1 == CCm(c, d)
                       dd == CmDeg(c1, d)
                       c2 == CCompute(c1, dd)
-                  IN  Fill(c2, GfKey(d), <<"gf", dd, NftContent(c2)>>)
+                  IN  Fill(c2, GfKey(d), <<"gf", dd, GfContent(dd, c2)>>)
 
 (***************************************************************************)
 (* Fresh(q, L)                                                             *)
@@ -227,7 +231,7 @@ Jacobi       == MemoRead("Jacobi", <<>>, JacKey, CJac(pc), <<"jacobi">>)
 ScaleFactor(a) == MemoRead("ScaleFactor", <<a>>, SfKey(a), CSf(pc, a), <<"sf", a>>)
 Hamiltonian(d, f) == Collinear /\ MemoRead("Hamiltonian", <<d, f>>, HamKey(d, f), CHam(pc, d, f), <<"ham", d, f, FreshContent(f)>>)
 HamSys(d, f)      == Collinear /\ MemoRead("HamSys", <<d, f>>, HsKey(d, f), CHs(pc, d, f), <<"hamsys", d, f, FreshContent(f)>>)
-GenFuncs(d)       == Collinear /\ MemoRead("GenFuncs", <<d>>, GfKey(d), CGf(pc, d), <<"gf", d, "own">>)
+GenFuncs(d)       == Collinear /\ MemoRead("GenFuncs", <<d>>, GfKey(d), CGf(pc, d), <<"gf", d, IF d \in FlatDegrees THEN "-" ELSE "own">>)
 
 \* point.eigenvalues / is_stable -> compute_stability() with the options and config in force
 \* (the getters materialise the default objects into the attributes)
@@ -419,7 +423,7 @@ CacheCoherent ==
     /\ Has(pc, NftKey) => Lookup(pc, NftKey) = <<"nft", "own">>
     /\ Has(pc, LdKey) => Lookup(pc, LdKey) = <<"ld", "own">>
     /\ \A e \in pc : e[2][1] \in {"ham", "hamsys"} => e[2][4] \in {"-", "own"}
-    /\ \A e \in pc : e[2][1] = "gf" => e[2][3] = "own"
+    /\ \A e \in pc : e[2][1] = "gf" => e[2][3] \in {"-", "own"}
 \* a Hamiltonian cached under degree d has degree d
 HamDegreeCoherent ==
     \A d \in Degrees, f \in Forms : Has(pc, HamKey(d, f)) => Lookup(pc, HamKey(d, f))[2] = d
